@@ -4,6 +4,7 @@ from __future__ import annotations
 from functools import partial
 
 from . import families as F
+from . import histories as H
 
 ID = "C04"
 HEAVY = False
@@ -40,6 +41,14 @@ def tasks(tier, seed):
     add(3, [], 1)
     addstep(4, [3])
     add(4, [3], 0)
+    # seeded operation histories on one object before the computation under test (state kept outside the value table)
+    for K in fam3:
+        for r in (0, 1, 2):
+            for j in range(2 if tier == "quick" else 5):
+                out.append({"key": f"ops{j}/n3/r{r}/K={','.join(map(str, K))}", "n": 3, "K": K, "r": r, "next": False, "ops": f"ops{j}"})
+    for K in F.sample([k for k in fam4 if len(k) < len(F.extras(4))], 32 if tier == "quick" else 200, seed, "c04ops"):
+        for r in (0, 1):
+            out.append({"key": f"ops0/n4/r{r}/K={','.join(map(str, K))}", "n": 4, "K": K, "r": r, "next": False, "ops": "ops0"})
     for K in fam3:
         for r in list(range(0, 11)) + [100, 1000]:
             if r == 1 and not K:
@@ -99,6 +108,9 @@ def setup(params, inp, lg):
         for S in range(2 ** n):
             if S not in known:
                 inp.real(f"curL{S}")
+    if params.get("ops"):
+        for nm in H.stale_names(H.plan(n, params["K"], params["ops"])):
+            inp.real(nm)
     return F.sam_constraints(v, n, lg)
 
 
@@ -131,7 +143,11 @@ def _run(pk, params, inp, v, comp, stale):
     C = pk.coalitions.Coalition
     g = pk.game.IncompleteCooperativeGame(n, comp)
     known = sorted(set(F.minimal(n)) | set(params["K"]))
-    g.set_known_values([v[S] for S in known], [C(S) for S in known])
+    if stale and params.get("ops"):
+        g = H.apply(pk, g, v, H.plan(n, params["K"], params["ops"]), inp)
+        stale = False
+    else:
+        g.set_known_values([v[S] for S in known], [C(S) for S in known])
     if stale:
         for S in range(2 ** n):
             if S not in set(known):
@@ -289,5 +305,8 @@ def test_vectors(params):
             d[f"curL{S}"] = g[S] - Fraction(rnd.randint(0, 2), 4)
             d[f"staleL{S}"] = Fraction(rnd.randint(-40, 40), 4)
             d[f"staleU{S}"] = Fraction(rnd.randint(-40, 40), 4)
+        for k in range(12):
+            d[f"hs{k}L"] = Fraction(rnd.randint(-40, 40), 4)
+            d[f"hs{k}U"] = Fraction(rnd.randint(-40, 40), 4)
         vecs.append(d)
     return vecs
